@@ -5,6 +5,7 @@ import MJ.Proofs.BalGen
 import MJ.Proofs.BalPatch
 import MJ.Proofs.Ops
 import MJ.Proofs.OpsBal
+import MJ.Model.OpsArms
 import MJ.Gen.Tables
 /-!
 # C05 — scoped constructs restore scope, capture and escape state on every path
@@ -30,12 +31,13 @@ def Balanced (code : Code) : Prop :=
     step code s ≠ .stuck ∧
     (step code s = .exit → s.frames = [] ∧ s.caps = 0 ∧ s.escs = 0)
 
-/-- full-strength statement about the checker -/
-def C05_full : Prop :=
+/-- soundness of the certificate checker, as a statement (the property at full strength, `C05_full`,
+and the final theorem `C05_main` are at the end of this file) -/
+def CheckerSound : Prop :=
   ∀ (code : Code) (cert : Cert), checkCert code cert = true → Balanced code
 
 /-- soundness of the certificate checker -/
-theorem checkCert_sound : C05_full := by
+theorem checkCert_sound : CheckerSound := by
   intro code cert hc e he s hreach
   have hinv := reach_inv hc (init_inv hc he) hreach
   have := step_sound hc s hinv
@@ -207,7 +209,7 @@ also set the closure of the frame it starts on), nested includes give their recu
 normal exit leaves the capture depth alone (`checkCert_sound` again).  Nothing is assumed about
 what the nested run does to the auto-escape mode, the instructions, the current block or — for macro
 calls — the frame stack and the depth. -/
-theorem nested_restores :
+def NestedRestores : Prop :=
     (∀ instr cost limit base closureF body, BlocksGrow body → ∀ s o,
       Same (macroCall instr cost limit base closureF body s o).2.1 s ∧
       (macroCall instr cost limit base closureF body s o).2.2 = o) ∧
@@ -223,7 +225,10 @@ theorem nested_restores :
     (∀ instr tmplAe cost limit newBlocks body, TopClosureOnly body → KeepsOuter body → ∀ s o,
       Same (performInclude instr tmplAe cost limit newBlocks body s o).2.1 s ∧
       (BalancedOnOk body → (performInclude instr tmplAe cost limit newBlocks body s o).1 = .ok →
-        (performInclude instr tmplAe cost limit newBlocks body s o).2.2.caps = o.caps)) :=
+        (performInclude instr tmplAe cost limit newBlocks body s o).2.2.caps = o.caps))
+
+open MJ.Nested in
+theorem nested_restores : NestedRestores :=
   ⟨fun instr cost limit base closureF body hb s o =>
       macroCall_restores instr cost limit base closureF body hb s o,
    fun name limit required newFrame body hf ho hn s o =>
@@ -775,5 +780,145 @@ theorem backpatch_sites_as_modelled :
       ("compile_macro_expression", ["add:Jump", "add:Return", "add:BuildMacro", "writes:Jump", "target=macro_instr"]),
       ("Continue", ["leave", "reads:iter_instr", "add:Jump"]),
       ("Break", ["leave", "add:Jump", "register"])] := by decide
+
+end MJ.C05
+
+namespace MJ.C05
+open MJ.Gen MJ.OpsArms MJ.Bal
+
+/-! ## Every push and pop of every arm of `eval_impl`, regenerated from the source -/
+
+def effRow (n : String) : List Nat × List String × Nat :=
+  match c05VmEffects.find? (fun r => r.1 == n) with
+  | some r => r.2
+  | none => ([], ["<missing>"], 0)
+
+/-- rows of `c05VmEffects` that are not instruction arms -/
+def pseudoRows : List String := ["recurse_loop!", "end-of-stream", "prologue"]
+
+/-- `vm_arm_effects_as_modelled`: for EVERY arm of `eval_impl` the number of `push_frame` / `pop_frame` /
+`begin_capture` / `end_capture` / `auto_escape_stack.push` / `.pop` / `loop_recursion_bases.push` /
+`.pop` calls in the arm's text (helper `push_loop` inlined, the `recurse_loop!` calls expanded with the
+macro's own row, its capture under `if $capture`), regenerated from `vm/mod.rs` on every run, is what
+one step of the machine `MJ.Ops.step` pushes / pops at most on the frame stack, the capture stack, the
+auto-escape stack and `loop_recursion_bases` — measured by executing the machine on probe states
+(`MJ.OpsArms.effOf`), not transcribed.  An arm that gains or loses a push or a pop (a second
+`pop_frame` in `PopLoopFrame`, an `end_capture` in an instruction the machine treats as straight-line,
+a `begin_capture` outside `if $capture`, a push in the prologue) breaks this.  The one capture the
+machine does not count is the discard capture of `LoadBlocks`, whose `end_capture` is the only one in
+the end-of-stream logic.  The arms that start a nested evaluation (another activation, certified on its
+own stream, wrapper modelled in `MJ/Model/Nested.lean`) are exactly CallFunction (`super()`), FastSuper,
+Include and CallBlock. -/
+theorem vm_arm_effects_as_modelled :
+    (c05VmEffects.all (fun r => pseudoRows.contains r.1 || r.1 == "LoadBlocks" ||
+        expand (effRow "recurse_loop!").1 r.2.1 r.2.2.1 == effOf r.1)) = true ∧
+    c05Instructions.all (fun n => c05VmEffects.any (fun r => r.1 == n)) = true ∧
+    effRow "recurse_loop!" = ([0, 0, 1, 0, 0, 0, 0, 0], [], 0) ∧
+    effRow "prologue" = (zero8, [], 0) ∧
+    effRow "LoadBlocks" = ([0, 0, 1, 0, 0, 0, 0, 0], [], 0) ∧
+    effRow "end-of-stream" = ([0, 0, 0, 1, 0, 0, 0, 0], [], 0) ∧
+    (c05VmEffects.filter (fun r => r.2.2.2 != 0)).map (·.1) =
+      ["CallFunction", "FastSuper", "Include", "CallBlock"] := by
+  decide +kernel
+
+/-- non-vacuity: the machine's rows are not all zero, and a `PopLoopFrame` arm with a second `pop_frame`
+or a `CallFunction` whose recursion did not begin a capture would not agree with it -/
+example : effOf "PopLoopFrame" = [0, 1, 0, 1, 0, 0, 0, 1] ∧ effOf "PushLoop" = [1, 0, 0, 0, 0, 0, 1, 0] ∧
+    effOf "CallFunction" = [0, 0, 1, 0, 0, 0, 0, 0] ∧ effOf "FastRecurse" = zero8 ∧
+    expand [0, 0, 1, 0, 0, 0, 0, 0] [0, 2, 0, 1, 0, 0, 0, 1] [] ≠ effOf "PopLoopFrame" ∧
+    expand [0, 0, 1, 0, 0, 0, 0, 0] zero8 ["false"] ≠ effOf "CallFunction" := by decide +kernel
+
+/-! ## The property at full strength and what is left between it and the theorems above -/
+
+/-- What the real code is, as far as the statement needs it (the parameters of `C05_main`): the
+templates the compiler accepts, the statement tree the parser builds for each (in the fragment
+`MJ.BalGen.Stmt`: every scoped statement kind, `break` / `continue`, recursion, macros, call blocks,
+imports, block references; expressions as straight-line / `flat` code), and the instruction stream
+`CodeGenerator` emits for it, projected to the balance alphabet (harness `tok`). -/
+structure Engine where
+  Template : Type
+  ast : Template → MJ.BalGen.Stmt
+  stream : Template → MJ.Bal.Code
+
+/-- **C05 at full strength**, over the abstract machine of `MJ/Model/Bal.lean`: for ALL templates the
+compiler accepts and ALL control-flow paths through the emitted code (every branch of every
+conditional jump and `Iterate`, any iteration count, `break` / `continue`, empty iteration, else
+branches, any depth of `loop(...)` recursion), from every region entry (the stream, every macro and
+call body):
+
+1. no instruction ever pops a frame, a capture or an auto-escape entry that the region did not push,
+   nor a frame of the wrong kind, and the region is left with exactly the entry stacks;
+2. two paths that reach the same instruction find the same frames, capture depth and auto-escape
+   depth: text after a construct is written to the same target whichever path was taken through it;
+3. run as a nested evaluation (block, `super()`, include, macro or call body) on top of ANY stacks of
+   a caller, wherever it stops — normally or at a failing instruction — the caller's frames are
+   underneath, untouched and in order, and none of its captures / escape entries was closed;
+and the wrappers around nested evaluations hand the execution state back on success and on failure
+(`NestedRestores`). -/
+def C05_full (E : Engine) : Prop :=
+  (∀ t : E.Template,
+    Balanced (E.stream t) ∧
+    (∀ e ∈ entries (E.stream t), ∀ s₁ s₂ : VmState,
+      Reach (E.stream t) (initAt e) s₁ → Reach (E.stream t) (initAt e) s₂ →
+      noReturn s₁.frames = true → noReturn s₂.frames = true → s₁.pc = s₂.pc →
+      s₁.caps = s₂.caps ∧ s₁.frames = s₂.frames ∧ s₁.escs = s₂.escs) ∧
+    (∀ e ∈ entries (E.stream t), ∀ F0 : List RFrame, (∀ f ∈ F0, Foreign f) → ∀ (c0 e0 : Nat) (u : VmState),
+      Reach (E.stream t) ⟨e, F0, c0, e0⟩ u →
+      ∃ own k m, u.frames = own ++ F0 ∧ u.caps = k + c0 ∧ u.escs = m + e0 ∧
+        step (E.stream t) u ≠ .stuck ∧
+        (step (E.stream t) u = .exit → own = [] ∧ k = 0 ∧ m = 0))) ∧
+  NestedRestores
+
+/-- **`C05_main`**: the full statement from two named hypotheses about the real code — everything else
+is proved above.
+
+* `h_parser` — the parser's `in_loop` discipline: `break` / `continue` only where a `for` body encloses
+  them, not across macro / call / block bodies, not in a loop's `else` (`MJ.BalGen.ok false`).
+  VALIDATED: every enumerated shape that violates it must be refused by the real parser (harness:
+  `nocompile` with the expected message), every other shape must compile.
+* `h_codegen` — `codegen.rs` emits what the back-patching generator model `MJ.BalPatch.gen` emits.
+  VALIDATED by comparing the two streams on every enumerated and sampled shape (`gen=` verdicts of
+  `drive_c05`, any difference is a model disagreement) and TIED by the regenerated tables
+  `codegen_arms_as_modelled` and `backpatch_sites_as_modelled`.
+
+That the abstract machine is `eval_impl` is not a hypothesis that can be stated here: it is tied by the
+regenerated tables `alphabet_covers_enum`, `other_arms_touch_nothing`, `mapped_arms_as_modelled`,
+`vm_arm_effects_as_modelled`, `recursion_bases_sites_as_modelled` and validated by the replay of the
+engine's own traces on `MJ.Ops.step` and by the depth counters at entry and exit of every activation. -/
+theorem C05_main (E : Engine)
+    (h_parser : ∀ t, MJ.BalGen.ok false (E.ast t) = true)
+    (h_codegen : ∀ t, E.stream t = (MJ.BalPatch.genTemplate (E.ast t)).toArray) :
+    C05_full E := by
+  refine ⟨fun t => ?_, nested_restores⟩
+  have hcode : E.stream t = MJ.BalGen.codeOf (MJ.BalGen.compileTemplate (E.ast t)) := by
+    rw [h_codegen t, (backpatching_generator_eq (E.ast t)).1]; rfl
+  have hc := compile_has_cert (E.ast t) (h_parser t)
+  rw [← hcode] at hc
+  exact ⟨checkCert_sound _ _ hc,
+    fun e he s₁ s₂ h₁ h₂ n₁ n₂ hpc => same_pc_same_target hc he h₁ h₂ n₁ n₂ hpc,
+    fun e he F0 hF c0 e0 u hr => by
+      obtain ⟨own, k, m, h1, h2, h3, h4, _, h6⟩ := certified_run_keeps_callers_stacks hc he hF c0 e0 hr
+      exact ⟨own, k, m, h1, h2, h3, h4, h6⟩⟩
+
+/-- the same conclusion for ANY stream the verified checker accepted at run time — what the check
+establishes for every real stream (fixtures included) without `h_parser` / `h_codegen` -/
+theorem C05_main_validated (E : Engine) (h_validated : ∀ t, validate (E.stream t) = true) :
+    C05_full E := by
+  refine ⟨fun t => ?_, nested_restores⟩
+  have hc := h_validated t
+  exact ⟨checkCert_sound _ _ hc,
+    fun e he s₁ s₂ h₁ h₂ n₁ n₂ hpc => same_pc_same_target hc he h₁ h₂ n₁ n₂ hpc,
+    fun e he F0 hF c0 e0 u hr => by
+      obtain ⟨own, k, m, h1, h2, h3, h4, _, h6⟩ := certified_run_keeps_callers_stacks hc he hF c0 e0 hr
+      exact ⟨own, k, m, h1, h2, h3, h4, h6⟩⟩
+
+/-- the hypotheses of `C05_main` are satisfiable by an engine with a non-trivial template: the model
+generators themselves on the statement tree `everything` -/
+example : ∃ E : Engine, (∀ t, MJ.BalGen.ok false (E.ast t) = true) ∧
+    (∀ t, E.stream t = (MJ.BalPatch.genTemplate (E.ast t)).toArray) ∧
+    ∃ t, (E.stream t).size = 71 :=
+  ⟨⟨Unit, fun _ => everything, fun _ => (MJ.BalPatch.genTemplate everything).toArray⟩,
+   fun _ => (by decide : MJ.BalGen.ok false everything = true), fun _ => rfl, (),
+   (by decide : (MJ.BalPatch.genTemplate everything).toArray.size = 71)⟩
 
 end MJ.C05
